@@ -720,11 +720,12 @@ impl World {
             }
         }
         // RECV branch: deliveries
-        let mut busy = !v.is_empty();
+        let sends_pending = !v.is_empty();
+        let mut in_flight = false;
         for l in [LinkId::SR, LinkId::RS] {
             if !self.link_ref(l).is_empty() {
                 v.push(Ev::Deliver(l));
-                busy = true;
+                in_flight = true;
             }
         }
         // TIMEOUT branch
@@ -737,9 +738,13 @@ impl World {
         if let Some(m) = min {
             for (side, u) in [(Side::S, su), (Side::R, ru)] {
                 if u == Some(m) {
-                    if m.is_zero() || !busy {
+                    if m.is_zero() || (!sends_pending && !in_flight) {
                         v.push(Ev::Timeout(side, false));
-                    } else if self.faults_left > 0 && scn.k_delay {
+                    } else if !sends_pending && self.faults_left > 0 && scn.k_delay {
+                        // a delay fault is the *link* sitting on PDUs in flight past a timer. Time
+                        // does not pass while a transaction has a PDU ready to hand to its transport
+                        // (a local transport stalled for a whole timer period is not modelled; the
+                        // real loop sends as soon as the slot is free)
                         v.push(Ev::Timeout(side, true));
                     }
                 }
